@@ -4,6 +4,7 @@ import Pixman.Lemmas.RegionQuery
 import Pixman.Lemmas.RegionTranslate
 import Pixman.Lemmas.RegionContainsRect
 import Pixman.Lemmas.RegionImage
+import Pixman.Props.C05
 /-! C07 — property theorems: queries, translation, bitmap import. -/
 namespace Pixman.Props.C07
 open Pixman.Region
@@ -309,5 +310,18 @@ theorem initFromImage_canon (w : Nat) (rows : List (List Bool))
 example : (∀ row ∈ exImg, row.length = 5) ∧
     initFromImage 5 exImg =
       ⟨⟨0, 0, 5, 4⟩, .heap [⟨0, 0, 2, 2⟩, ⟨3, 0, 4, 2⟩, ⟨1, 3, 5, 4⟩]⟩ := by decide
+
+/-- translate, full strength: the slow path's re-validation is discharged by
+    `Props.C05.validateRects_exact`. -/
+theorem translate_mem (c : Cfg) (hc : 1 ≤ c.bits) {r : Region} (h : Canon r) (dx dy x y : Int) :
+    (translate c r dx dy).Mem x y ↔
+      (r.Mem (x - dx) (y - dy) ∧ c.min ≤ x ∧ x < c.max ∧ c.min ≤ y ∧ y < c.max) :=
+  translate_mem_partial c hc h dx dy
+    (fun l hg => (Pixman.Props.C05.validateRects_exact l hg).2) x y
+
+theorem translate_canon (c : Cfg) (hc : 1 ≤ c.bits) {r : Region} (h : Canon r) (dx dy : Int) :
+    Canon (translate c r dx dy) :=
+  translate_canon_partial c hc h dx dy
+    (fun l hg _ => (Pixman.Props.C05.validateRects_exact l hg).1)
 
 end Pixman.Props.C07
